@@ -97,3 +97,10 @@ func VerifC16_TableReset()            { VerifC01_TableReset() }
 
 // C15: capacity change keeps every column's rows (kernel)
 func VerifC11_TableShrink() { VerifC15_TableShrink() }
+
+// C05: batch selection through a registered filter equals the unregistered one, and the cache
+// entry survives the batch and the next one (batchEpilogue)
+func VerifC05_BatchAddPlain()          { VerifC06_AddPlain() }
+func VerifC05_BatchRemoveEntitiesRel() { VerifC06_RemoveEntitiesRel() }
+func VerifC05_BatchSetRelations()      { VerifC06_SetRelations() }
+func VerifC05_BatchExchangeRelation()  { VerifC06_ExchangeRelation() }
